@@ -6,22 +6,18 @@ import (
 	"path/filepath"
 	"time"
 
-	"lunar/engine/actions"
+	"lunar/engine/streams/resources"
 	lunar_messages "lunar/engine/messages"
-	"lunar/engine/streams"
-	stream_config "lunar/engine/streams/config"
 	lunar_context "lunar/engine/streams/lunar-context"
-	publictypes "lunar/engine/streams/public-types"
 	stream_types "lunar/engine/streams/types"
 	"lunar/engine/utils/environment"
-	"lunar/engine/verifhook"
 	context_manager "lunar/toolkit-core/context-manager"
 
 	"github.com/rs/zerolog"
 )
 
 const quotas = `quotas:
-  - id: Q1
+  - id: q0
     filter:
       url: "a.com/*"
     strategy:
@@ -29,146 +25,33 @@ const quotas = `quotas:
         max_request_count: 2
         request_expiration_sec: 5
         gc_interval_sec: 3
-  - id: Q2
-    filter:
-      url: "a.com/*"
-    strategy:
-      concurrent:
-        max_request_count: 1
-        request_expiration_sec: 4
-        gc_interval_sec: 3
-`
-const flow = `name: f1
-filter:
-  url: "a.com/*"
-processors:
-  lim:
-    processor: Limiter
-    parameters:
-      - key: quota_id
-        value: Q1
-  lim2:
-    processor: Limiter
-    parameters:
-      - key: quota_id
-        value: Q2
-  gen:
-    processor: GenerateResponse
-    parameters:
-      - key: status
-        value: 429
-flow:
-  request:
-    - from:
-        stream:
-          name: globalStream
-          at: start
-      to:
-        processor:
-          name: lim
-    - from:
-        processor:
-          name: lim
-          condition: above_limit
-      to:
-        processor:
-          name: gen
-    - from:
-        processor:
-          name: lim
-          condition: below_limit
-      to:
-        processor:
-          name: lim2
-    - from:
-        processor:
-          name: lim2
-          condition: above_limit
-      to:
-        processor:
-          name: gen
-    - from:
-        processor:
-          name: lim2
-          condition: below_limit
-      to:
-        stream:
-          name: globalStream
-          at: end
-  response:
-    - from:
-        processor:
-          name: gen
-      to:
-        stream:
-          name: globalStream
-          at: end
-    - from:
-        stream:
-          name: globalStream
-          at: start
-      to:
-        stream:
-          name: globalStream
-          at: end
 `
 
 var shared = lunar_context.NewMemoryState[[]byte]()
 
 func main() {
 	zerolog.SetGlobalLevel(zerolog.Disabled)
-	repo := os.Getenv("VERIF_REPO")
-	if repo == "" {
-		repo = "/repo"
-	}
-	environment.SetProcessorsDirectory(filepath.Join(repo, "proxy/src/services/lunar-engine/streams/processors/registry"))
-	cm := context_manager.Get().SetMockClock()
-	clk := cm.GetMockClock()
-	verifhook.SetEvent(func(kind string, args ...string) { fmt.Println("   ev", kind, args) })
 	cwd, _ := os.Getwd()
 	base := filepath.Join(cwd, "cfg")
-	os.RemoveAll(base)
-	for _, d := range []string{"flows", "quotas", "pp"} {
-		os.MkdirAll(filepath.Join(base, d), 0o755)
-	}
-	os.WriteFile(filepath.Join(base, "quotas", "q.yaml"), []byte(quotas), 0o644)
-	os.WriteFile(filepath.Join(base, "flows", "f.yaml"), []byte(flow), 0o644)
-	environment.SetStreamsFlowsDirectory(filepath.Join(base, "flows"))
-	environment.SetQuotasDirectory(filepath.Join(base, "quotas"))
-	environment.SetPathParamsDirectory(filepath.Join(base, "pp"))
-	st, err := streams.NewStream()
-	if err != nil {
-		panic(err)
-	}
-	if err := st.Initialize(); err != nil {
-		panic(err)
-	}
-	req := func(id string) {
-		api := stream_types.NewRequestAPIStream(lunar_messages.OnRequest{ID: id, SequenceID: id, Method: "GET", Scheme: "https", URL: "a.com/x", Headers: map[string]string{}}, shared)
-		acts := &stream_config.StreamActions{Request: &stream_config.RequestStream{}}
-		err := st.ExecuteFlow(api, acts)
-		early := false
-		for _, a := range acts.Request.Actions {
-			if _, ok := a.(*actions.EarlyResponseAction); ok {
-				early = true
-			}
+	for i := 0; i < 5; i++ {
+		t0 := time.Now()
+		os.RemoveAll(base)
+		for _, d := range []string{"flows", "quotas", "pp"} {
+			os.MkdirAll(filepath.Join(base, d), 0o755)
 		}
-		fmt.Println("req", id, "err", err, "early", early)
+		os.WriteFile(filepath.Join(base, "quotas", "q.yaml"), []byte(quotas), 0o644)
+		environment.SetQuotasDirectory(filepath.Join(base, "quotas"))
+		environment.SetPathParamsDirectory(filepath.Join(base, "pp"))
+		t1 := time.Now()
+		context_manager.Get().SetMockClock()
+		t2 := time.Now()
+		_, err := resources.NewResourceManagement()
+		t3 := time.Now()
+		t4 := time.Now()
+		for j := 0; j < 10; j++ {
+			stream_types.NewRequestAPIStream(lunar_messages.OnRequest{ID: "a", SequenceID: "a", Method: "GET", Scheme: "https", URL: "h0.com/x", Headers: map[string]string{}}, shared)
+		}
+		fmt.Println("10 streams", time.Since(t4))
+		fmt.Println(err, "files", t1.Sub(t0), "clock", t2.Sub(t1), "rm", t3.Sub(t2))
 	}
-	resp := func(id string) {
-		api := stream_types.NewResponseAPIStream(lunar_messages.OnResponse{ID: id, SequenceID: id, Method: "GET", URL: "a.com/x", Status: 200, Headers: map[string]string{}}, shared)
-		acts := &stream_config.StreamActions{Response: &stream_config.ResponseStream{}}
-		err := st.ExecuteFlow(api, acts)
-		fmt.Println("resp", id, "err", err)
-	}
-	var _ publictypes.APIStreamI
-	_ = clk
-	_ = time.Second
-	req("a")
-	resp("a")
-	req("b")
-	resp("b")
-	req("c")
-	resp("c")
-	req("d")
 }
